@@ -172,10 +172,12 @@ class Sensor(object):
                                           sensor_number=sensor_number,
                                           lun=lun)
 
-        reading = rsp.sensor_reading
         if rsp.config.initial_update_in_progress:
-            reading = None
+            # reading/state unavailable: neither the reading nor the state
+            # bytes of this response describe the sensor
+            return (None, None)
 
+        reading = rsp.sensor_reading
         states = None
         if rsp.states1 is not None:
             states = rsp.states1
